@@ -203,6 +203,103 @@ def wiring(max_layers: int) -> List[Dict[str, Any]]:
     return recs
 
 
+def stack_contributions(kind: str, L: int, m: float, r: float, dropout_p: float, default_rule: bool) -> Tuple[bool, str]:
+    """End to end on the real modules: every attention / MLP sub-block of a real TransformerStack (or TransformerDecoder) is replaced by a
+    probe that outputs its own basis vector, every norm by the identity; one eval-mode forward of a basis-vector input then reads off the
+    coefficient with which the embedding and each branch reach the output.  Their squares must satisfy the property's five claims."""
+    import torch
+    import torch.nn as nn
+    import unit_scaling as uu
+    import unit_scaling._modules as M
+    from unit_scaling.core.functional import transformer_residual_scaling_rule
+    hidden = 2 * L + 2
+
+    class Probe(nn.Module):
+        def __init__(self, k: int) -> None:
+            super().__init__()
+            self.k = k
+
+        def forward(self, x: Any, *a: Any, **kw: Any) -> Any:
+            out = torch.zeros_like(x)
+            out[..., self.k] = 1.0
+            return out
+
+    kw: Dict[str, Any] = {} if default_rule else {"residual_scaling": transformer_residual_scaling_rule(m, r)}
+    if kind == "stack":
+        st = M.TransformerStack(layers=L, hidden_size=hidden, heads=1, is_causal=True, dropout_p=dropout_p, **kw)
+    else:
+        dec = uu.TransformerDecoder(hidden_size=hidden, vocab_size=7, layers=L, heads=1, dropout_p=dropout_p, **kw)
+        st = next(mod for mod in dec.modules() if isinstance(mod, M.TransformerStack))
+    layers = [mod for mod in st.modules() if isinstance(mod, M.TransformerLayer)]
+    if len(layers) != L:
+        return True, f"{kind} with layers={L} holds {len(layers)} TransformerLayer modules"
+    k = 1
+    kinds: List[str] = []
+    for layer in layers:
+        for name, child in list(layer.named_children()):
+            if isinstance(child, uu.MHSA):
+                setattr(layer, name, Probe(k)); kinds.append("attn"); k += 1
+            elif isinstance(child, uu.MLP):
+                setattr(layer, name, Probe(k)); kinds.append("mlp"); k += 1
+            elif isinstance(child, (uu.RMSNorm, uu.LayerNorm, nn.LayerNorm)):
+                setattr(layer, name, nn.Identity())
+    if kinds != ["attn", "mlp"] * L:
+        return True, f"sub-blocks found in the order {kinds}"
+    st.eval()
+    x = torch.zeros(1, 1, hidden, dtype=torch.float64)
+    x[..., 0] = 1.0
+    # dropout is not part of the residual scheme the rule is about (U.dropout also rescales by sqrt(1-p) in eval mode): neutralised
+    import unit_scaling.functional as UF
+    orig_dropout = UF.dropout
+    UF.dropout = lambda input, *a, **k: input  # type: ignore[assignment]
+    try:
+        with torch.no_grad():
+            out = st(x)[0, 0]
+    finally:
+        UF.dropout = orig_dropout  # type: ignore[assignment]
+    sq = [float(v) ** 2 for v in out[: 2 * L + 1]]
+    e2, attn, mlp = sq[0], sq[1::2], sq[2::2]
+    if default_rule:
+        m, r = 1.0, 1.0
+    errs = []
+    tol = 1e-9
+    if abs(sum(sq) - 1) > tol:
+        errs.append(f"sum of squared contributions = {sum(sq)!r}")
+    if max(attn) - min(attn) > tol * max(attn):
+        errs.append(f"attention contributions differ: {attn}")
+    if max(mlp) - min(mlp) > tol * max(mlp):
+        errs.append(f"MLP contributions differ: {mlp}")
+    if abs(sum(attn) / sum(mlp) - r * r) > tol * r * r:
+        errs.append(f"attn/mlp = {math.sqrt(sum(attn) / sum(mlp))!r}, requested {r!r}")
+    if abs((sum(attn) + sum(mlp)) / 2 / e2 - m * m) > tol * m * m:
+        errs.append(f"mean layer/embedding = {math.sqrt((sum(attn) + sum(mlp)) / 2 / e2)!r}, requested {m!r}")
+    return bool(errs), (f"real {kind}, layers={L}, residual_mult={m!r}, residual_attn_ratio={r!r}, dropout_p={dropout_p}, "
+                        f"{'default' if default_rule else 'given'} rule: " + "; ".join(errs or ["contributions as stated"]))
+
+
+CONTRIB_CFGS = [(kind, L, m, r, p, d) for kind in ("stack", "decoder") for (L, m, r, p, d) in
+                [(1, 1.0, 1.0, 0.0, True), (3, 1.0, 1.0, 0.3, True), (2, 0.5, 2.0, 0.0, False), (3, 2.0, 1 / 3, 0.25, False), (4, 1 / 16, 16.0, 0.1, False),
+                 (1, 16.0, 1 / 16, 0.3, False)]]
+
+
+def task_contributions() -> List[Dict[str, Any]]:
+    import torch
+    torch.set_num_threads(1)
+    recs: List[Dict[str, Any]] = []
+    for cfg in CONTRIB_CFGS:
+        name = "contributions[{},layers={},mult={:.4g},ratio={:.4g},dropout={},default_rule={}]".format(*cfg)
+        try:
+            bad, desc = stack_contributions(*cfg)
+        except Exception as e:
+            recs.append({"type": "obligation", "name": name, "status": INCONCLUSIVE, "queries": 0, "detail": f"probe construction failed: {type(e).__name__}: {e}"})
+            continue
+        if bad:
+            recs.append({"type": "violation", "key": f"C07/{name}", "what": desc, "replay": {"kind": "contributions", "cfg": list(cfg)}})
+        else:
+            recs.append({"type": "obligation", "name": name, "status": CONCRETE, "kind": "concrete", "queries": 0, "detail": desc})
+    return recs
+
+
 def task_step(parity: int, timeout: float) -> List[Dict[str, Any]]:
     return discharge("C07", f"step[{'attn' if parity == 0 else 'mlp'}]", h_step(parity), _replay, timeout)
 
@@ -224,12 +321,15 @@ def run(rep: Report, only: str = "") -> None:
     tasks = [(task_step, (0, timeout)), (task_step, (1, timeout)), (task_final, (timeout,))]
     tasks += [(task_unrolled, (n, timeout)) for n in range(1, depth + 1)]
     tasks.append((wiring, (64 if thorough else 32,)))
+    tasks.append((task_contributions, ()))
     rep.extend(run_tasks(tasks))
     rep.functions.append(describe_function(transformer_residual_scaling_rule))
     rep.bounds = {
         "induction": "residual_mult, residual_attn_ratio in [1/16,16] (reals), layers L in [1,2^20], branch index k = 2j or 2j+1 with 0 <= j < L: all depths at once",
         "unrolled": f"depths 1..{depth} transformer layers with symbolic mult/ratio (no invariant), as a cross-check of the induction",
         "wiring": "TransformerStack with layers = 1..32 (quick) / 64 (thorough), structural",
+        "contributions": "real TransformerStack / TransformerDecoder (12 configurations: layers 1-4, mult/ratio incl. range ends, dropout_p 0-0.3, default and given rule) with "
+                         "probe sub-blocks: coefficient of the embedding and of every branch read off one eval-mode forward (concrete, float64)",
         "outside": "floats modelled as reals (double rounding of tau not modelled); TransformerLayer.forward's use of mhsa_tau/mlp_tau is covered under C08",
     }
     rep.assumptions = ["invariant Inv(k): e^2 = L/D_k, attn^2 = a_a^2/D_k, mlp^2 = a_m^2/D_k, D_k = L + ceil(k/2) a_a^2 + floor(k/2) a_m^2 (oracle written from the docstring)",
@@ -241,6 +341,8 @@ def run(rep: Report, only: str = "") -> None:
 
 
 def replay(data: Dict[str, Any]) -> Tuple[bool, str]:
+    if data.get("kind") == "contributions":
+        return stack_contributions(*data["cfg"])
     if data.get("kind") == "wiring":
         recs = wiring(int(data["layers"]))
         v = [r for r in recs if r.get("type") == "violation"]
